@@ -38,6 +38,9 @@ def cases(tier):
     out.append("from_ode/o2/m1/d2")
     out.append("stack/o1/m1/d2")
     out.append("lift_max/o1/m0/d2")
+    for kind in ("ode_surplus", "res_surplus"):
+        out.append(f"{kind}/o1/m1/d2")
+        out.append(f"{kind}/o2/m0/d2")
     out.append("range/o1/m0/d2")
     for ssm in cm.SSMS:
         out.append(f"linearize_ts0/{ssm}/o1q2")
@@ -97,14 +100,14 @@ def build(case_id, tier):
 
     def make(dom):
         from probdiffeq import probdiffeq
-        nargs = order if kind in ("ode_lift", "lift_max", "range") else (order + 1 if kind in ("res_lift",) else order)
+        nargs = order if kind in ("ode_lift", "lift_max", "range", "ode_surplus") else (order + 1 if kind in ("res_lift", "res_surplus") else order)
         if kind == "from_ode":
             nargs = order
         if kind == "stack":
             nargs = 2
         co = coeffs(dom, d, nargs)
         ncoef = {"ode_lift": order + m, "lift_max": order + 2, "range": order + 1, "res_lift": order + 1 + m,
-                 "from_ode": order + 1 + m, "stack": 2 + m}[kind]
+                 "from_ode": order + 1 + m, "stack": 2 + m, "ode_surplus": order + m + 2, "res_surplus": order + 1 + m + 2}[kind]
         U = [sym_array(dom, f"u{j}", (d,)) for j in range(ncoef)]
         t = sym_array(dom, "t", ())
         make.sym = (co, U, t)
@@ -116,6 +119,14 @@ def build(case_id, tier):
 
         def fn(co, U, t):
             import jax.numpy as jnp
+            if kind == "ode_surplus":
+                vf = mk_ode(co).jet_lift(lift_by=m)
+                return list(vf.vector_field(jet_coords=list(U), t=t))     # more coefficients than the lift needs
+            if kind == "res_surplus":
+                wrap = {0: probdiffeq.residual_position, 1: probdiffeq.residual_velocity, 2: probdiffeq.residual_acceleration}[order]
+                res = wrap((lambda y, dy, *, t: feval(co, [y, dy], t)) if order == 1 else
+                           (lambda y, dy, ddy, *, t: feval(co, [y, dy, ddy], t)))
+                return list(res.jet_lift(lift_by=m).residual_function(jet_coords=list(U), t=t))
             if kind == "ode_lift":
                 vf = mk_ode(co).jet_lift(lift_by=m)
                 out = vf.vector_field(jet_coords=list(U), t=t)
@@ -153,11 +164,11 @@ def build(case_id, tier):
         co_s, U_s, t_s = make.sym
         (tvar,) = t_s[()].vars()
         Ul = [list(u) for u in U_s]
-        if kind in ("ode_lift", "lift_max"):
+        if kind in ("ode_lift", "lift_max", "ode_surplus"):
             f = feval(co_s, [np.array(Ul[j], dtype=object) for j in range(order)], t_s[()])
-            mm = m if kind == "ode_lift" else len(U_s) - order - 1
+            mm = m if kind in ("ode_lift", "ode_surplus") else len(U_s) - order - 1
             want = total_derivatives(f, Ul, tvar, mm)
-        elif kind == "res_lift":
+        elif kind in ("res_lift", "res_surplus"):
             f = feval(co_s, [np.array(Ul[j], dtype=object) for j in range(order + 1)], t_s[()])
             want = total_derivatives(f, Ul, tvar, m)
         elif kind == "from_ode":
@@ -168,8 +179,7 @@ def build(case_id, tier):
             r1 = co_s["c"] + co_s["L0"] @ u0 + co_s["e"] * t_s[()]
             r2 = feval(co_s, [u0, u1], t_s[()])
             want = [np.concatenate([r1, r2])]
-        res = {}
-        assert len(out) == len(want), (len(out), len(want))
+        res = {"number of outputs = lift_by + 1": (orc.arr(np.asarray(float(len(out)))), orc.arr(np.asarray(float(len(want)))))}
         if orc.sym:
             for i, (x, w) in enumerate(zip(out, want)):
                 res[f"d^{i}/dt^{i}"] = (orc.arr(x), w)
